@@ -281,7 +281,7 @@ func (ex *executor) execCall(st *state, in ssa.Instruction, cc *ssa.CallCommon, 
 			setRes(res)
 			return
 		}
-		if ex.safety && ex.root().contract != nil && ex.root().contract.CheckNil {
+		if !ex.inSpec && ex.root().contract != nil && ex.root().contract.CheckNil {
 			ex.addObligation(st, "nil", "interface method call "+ex.srcText(in.Pos(), cc.Method.Name()), Implies(st.pc, Not(Eq(recv.C[0], IntC(0)))), in.Pos())
 		}
 		ex.root().callees["unknown:"+key] = true
@@ -411,6 +411,11 @@ func (ex *executor) applyContract(st *state, c *Contract, key string, names []st
 	}
 	for i, rq := range c.Requires {
 		t := ex.evalBoolEnv(rq, env)
+		if rc := r.contract; rc != nil && rc.NoSafety && strings.HasPrefix(rq.Label, "safe-") {
+			// overflow / size preconditions are safety obligations: not generated for nosafety functions
+			ex.assume(st, t)
+			continue
+		}
 		if rc := r.contract; rc != nil && rc.TrustPre != nil {
 			if why, ok := rc.TrustPre[short+" "+clauseLabel(rq, i)]; ok {
 				r.abstracted[fmt.Sprintf("precondition %s of %s assumed at the call site: %s", clauseLabel(rq, i), short, why)]++
@@ -438,7 +443,39 @@ func (ex *executor) applyContract(st *state, c *Contract, key string, names []st
 				ex.havocLoc(st, l, na)
 			}
 		} else {
+			// frame-less callee: everything is havocked except the locations it is assumed to preserve
+			type saved struct {
+				cls *HeapClass
+				key []*Term
+				val *Term
+				h   *Heap
+			}
+			var keep []saved
+			env.st = pre
+			for _, pc := range c.Preserves {
+				for _, l := range ex.evalLoc(pc, env) {
+					for _, cl := range l.classes {
+						h := ex.heapOf(pre, cl)
+						if l.region != nil {
+							keep = append(keep, saved{cls: cl, h: h})
+						} else {
+							keep = append(keep, saved{cls: cl, key: l.key, val: h.Read(l.key)})
+						}
+					}
+				}
+			}
+			env.st = st
 			ex.havocAll(st, "contract of "+short+" has no frame")
+			for _, k := range keep {
+				if k.h != nil {
+					st.heaps[k.cls.Name] = k.h
+				} else {
+					st.heaps[k.cls.Name] = ex.heapOf(st, k.cls).Store(k.key, k.val)
+				}
+			}
+			if len(keep) > 0 {
+				r.abstracted["callee "+short+" assumed to preserve the locations listed in its contract"]++
+			}
 		}
 	}
 	// results
@@ -516,6 +553,7 @@ func (ex *executor) inlineCall(st *state, callee *ssa.Function, args []Value, bi
 	}
 	sub := ex.eng.newExecutor(callee, key, nil, ex)
 	sub.safety = ex.safety
+	sub.inSpec = ex.inSpec
 	sub.classifyCells()
 	sub.findLoops()
 	for _, li := range sub.loops {
